@@ -1,0 +1,107 @@
+//go:build verif
+
+/*
+Copyright The ORAS Authors.
+Licensed under the Apache License, Version 2.0 (the "License");
+you may not use this file except in compliance with the License.
+You may obtain a copy of the License at
+
+http://www.apache.org/licenses/LICENSE-2.0
+
+Unless required by applicable law or agreed to in writing, software
+distributed under the License is distributed on an "AS IS" BASIS,
+WITHOUT WARRANTIES OR CONDITIONS OF ANY KIND, either express or implied.
+See the License for the specific language governing permissions and
+limitations under the License.
+*/
+
+package remote
+
+import (
+	"io"
+	"net/http"
+
+	"github.com/opencontainers/go-digest"
+	ocispec "github.com/opencontainers/image-spec/specs-go/v1"
+	"oras.land/oras-go/v2/registry"
+)
+
+// This file only re-exports unexported functions for the verification harness.
+// It is compiled only with the build tag "verif".
+
+// VerifURL returns the URL built for kind.
+func VerifURL(kind string, plainHTTP bool, ref registry.Reference) string {
+	switch kind {
+	case "base":
+		return buildRegistryBaseURL(plainHTTP, ref)
+	case "catalog":
+		return buildRegistryCatalogURL(plainHTTP, ref)
+	case "repobase":
+		return buildRepositoryBaseURL(plainHTTP, ref)
+	case "taglist":
+		return buildRepositoryTagListURL(plainHTTP, ref)
+	case "manifest":
+		return buildRepositoryManifestURL(plainHTTP, ref)
+	case "blob":
+		return buildRepositoryBlobURL(plainHTTP, ref)
+	case "upload":
+		return buildRepositoryBlobUploadURL(plainHTTP, ref)
+	case "referrers":
+		return buildReferrersURL(plainHTTP, ref, "")
+	}
+	return ""
+}
+
+// VerifMountURL re-exports buildRepositoryBlobMountURL.
+func VerifMountURL(plainHTTP bool, ref registry.Reference, d digest.Digest, fromRepo string) string {
+	return buildRepositoryBlobMountURL(plainHTTP, ref, d, fromRepo)
+}
+
+// VerifReferrersURL re-exports buildReferrersURL.
+func VerifReferrersURL(plainHTTP bool, ref registry.Reference, artifactType string) string {
+	return buildReferrersURL(plainHTTP, ref, artifactType)
+}
+
+// VerifParseLink re-exports parseLink.
+func VerifParseLink(resp *http.Response) (string, error) { return parseLink(resp) }
+
+// VerifLimitReader re-exports limitReader.
+func VerifLimitReader(r io.Reader, n int64) io.Reader { return limitReader(r, n) }
+
+// VerifLimitSize re-exports limitSize.
+func VerifLimitSize(desc ocispec.Descriptor, n int64) error { return limitSize(desc, n) }
+
+// VerifReferrerChange mirrors referrerChange.
+type VerifReferrerChange struct {
+	Referrer ocispec.Descriptor
+	Add      bool
+}
+
+// VerifApplyReferrerChanges re-exports applyReferrerChanges.
+func VerifApplyReferrerChanges(referrers []ocispec.Descriptor, changes []VerifReferrerChange) ([]ocispec.Descriptor, error) {
+	cs := make([]referrerChange, len(changes))
+	for i, c := range changes {
+		var op referrerOperation = referrerOperationRemove
+		if c.Add {
+			op = referrerOperationAdd
+		}
+		cs[i] = referrerChange{referrer: c.Referrer, operation: op}
+	}
+	return applyReferrerChanges(referrers, cs)
+}
+
+// VerifErrNoReferrerUpdate re-exports errNoReferrerUpdate.
+var VerifErrNoReferrerUpdate = errNoReferrerUpdate
+
+// VerifFilterReferrers re-exports filterReferrers.
+func VerifFilterReferrers(refs []ocispec.Descriptor, artifactType string) []ocispec.Descriptor {
+	return filterReferrers(refs, artifactType)
+}
+
+// VerifIsReferrersFilterApplied re-exports isReferrersFilterApplied.
+func VerifIsReferrersFilterApplied(applied, requested string) bool {
+	return isReferrersFilterApplied(applied, requested)
+}
+
+// VerifBuildReferrersTag re-exports buildReferrersTag.
+func VerifBuildReferrersTag(desc ocispec.Descriptor) (string, error) { return buildReferrersTag(desc) }
